@@ -20,6 +20,9 @@ def _args(engine, st, node):
             if isinstance(v, V) and isinstance(v.t, Ty.Tuple):
                 out.extend(Ty.split(v.t, v.c))
                 continue
+            if isinstance(v, PyConst) and v.val == "<varargs>":
+                out.append(v)  # opaque pass-through of *args
+                continue
             raise Unsupported("star-args call on a non-tuple")
         out.append(engine.eval(st, a))
     return out
@@ -29,6 +32,10 @@ def _kwargs(engine, st, node):
     out = {}
     for kw in node.keywords:
         if kw.arg is None:
+            v = engine.eval(st, kw.value)
+            if isinstance(v, PyConst) and v.val == "<kwargs>":
+                out["**"] = v  # opaque pass-through of **kwargs
+                continue
             raise Unsupported("**kwargs call")
         out[kw.arg] = engine.eval(st, kw.value)
     return out
@@ -539,6 +546,8 @@ def builtin_call(engine, st, name, node):
     if name == "float":
         x = engine.eval(st, node.args[0])
         if isinstance(x, PyConst) and x.val in ("inf", "-inf"):
+            if engine.spec_mode:
+                return engine.infinity(x.val == "-inf")
             return PyConst(float(x.val))
         return engine.coerce(x, Real)
     if name == "bool":
